@@ -282,6 +282,7 @@ def r_complete(ctx, rule='R01.5'):
 
 def _check_best_value_term(ctx, rule, inst, body, where, bv):
     good = False
+    bv = inline_helpers(ctx.F, bv)          # `self.best_value()` written in maximize is the accessor's own term
     om = opt_map(bv)
     if om is not None and solver_field(om[0], 'best_sol'):
         good = is_lb(ctx.F)(om[1])
